@@ -178,6 +178,7 @@ func runC01(r *simkit.Run, c Cfg) {
 		sopts = append(sopts, dagsync.FirstSyncDepth(cfg.firstDepth))
 	}
 	sopts = append(sopts, dagsync.SegmentDepthLimit(cfg.segDepth))
+	sopts = append(sopts, dagsync.RecvAnnounce("")) // direct announcements: the third way into a chain sync
 	if cfg.retry {
 		sopts = append(sopts, dagsync.RetryableHTTPClient(2, time.Millisecond, 20*time.Millisecond))
 	}
@@ -218,6 +219,7 @@ func runC01(r *simkit.Run, c Cfg) {
 	offChain := RawCid("offchain")
 	w.Names.Set(offChain.String(), "offchain")
 
+	announced := map[cid.Cid]bool{}
 	task := r.Go("client", func(t *simkit.Task) {
 		for k := 0; k < ncalls; k++ {
 			t.Yield("op")
@@ -256,9 +258,11 @@ func runC01(r *simkit.Run, c Cfg) {
 				lm.draw(tp, pub)
 				t.Logf("the application's last-known-sync answer is now (%s, %v)", w.CidName(lm.lkCid), lm.lkOK)
 			}
-			kind := tp.Choose(10, "callkind")
+			kind := tp.Choose(12, "callkind")
 			switch {
-			case kind <= 5 || len(pub.Ads) == 0:
+			case kind >= 10 && len(pub.Ads) > 0 && c.Case < 0:
+				c01AnnounceCall(t, w, pub, sub, lst, cfg, announced)
+			case kind <= 5 || kind >= 10 || len(pub.Ads) == 0:
 				c01AdCall(t, w, pub, sub, lst, cfg, offChain)
 			case kind <= 7:
 				c01EntriesCall(t, w, pub, sub, cfg, false)
@@ -477,6 +481,116 @@ func c01AdCall(t *simkit.Task, w *World, pub *PubNode, sub *SubNode, lst *listen
 		r.Probe("nontrivial")
 	}
 	r.State(fmt.Sprintf("ad want=%d req=%d q=%v stop=%v seg=%d", len(want), len(wantReq), queried, stop != cid.Undef, cfg.segDepth))
+}
+
+// c01AnnounceCall: an announce-triggered chain sync. Head = the announced
+// advertisement, stop = the publisher's latest sync (which the sync asks
+// for: the application's last-known-sync function may answer), depth = the
+// subscriber's limit, or the first-sync depth when there is no latest sync.
+// The receiver drops an announcement of a CID it has seen.
+func c01AnnounceCall(t *simkit.Task, w *World, pub *PubNode, sub *SubNode, lst *listener, cfg c01Cfg, announced map[cid.Cid]bool) {
+	r, tp := w.R, w.R.Tape
+	n := len(pub.Ads)
+	headIdx := n - 1
+	if tp.Chance(1, 5, "annOld") {
+		headIdx = tp.Choose(n, "annIdx")
+	}
+	head := pub.Ads[headIdx]
+	dup := announced[head]
+	// the harness must not ask for latest-sync itself here (asking records
+	// the last-known-sync answer): its own account says what it is
+	stop := cfg.lm.cur
+	if !dup {
+		cfg.lm.observe()
+		stop = cfg.lm.cur
+	}
+	depth := cfg.adsDepth
+	if stop == cid.Undef && cfg.firstDepth != 0 {
+		depth = cfg.firstDepth
+	}
+	before := map[cid.Cid]bool{}
+	for _, k := range sub.Store.Keys() {
+		before[k] = true
+	}
+	hook0 := len(sub.Hooks())
+	req0 := len(w.Net.Requests())
+	lst.drain()
+	t.Logf("Announce(%s) latest=%s dup=%v", w.CidName(head), w.CidName(stop), dup)
+	if err := sub.Sub.Announce(bg, head, pub.AddrInfo()); err != nil {
+		r.Violate("c01.error", "Announce(%s) returned %v", w.CidName(head), err)
+		return
+	}
+	announced[head] = true
+	// let the sync run: until its notification arrives, or nothing has moved
+	// for a while (the task blocks on the listener, so simulated time passes
+	// and delayed answers arrive)
+	var evs []dagsync.SyncFinished
+	for i := 0; i < 20 && len(evs) == 0; i++ {
+		nreq, nh := len(w.Net.Requests()), len(sub.Hooks())
+		select {
+		case e, ok := <-lst.ch:
+			if ok {
+				evs = append(evs, e)
+			}
+		case <-time.After(20 * time.Second):
+		}
+		busy := len(w.Net.Requests()) != nreq || len(sub.Hooks()) != nh
+		for _, p := range r.AllParked() {
+			if p.Site != "op" {
+				busy = true // a request unanswered, a library goroutine at a lock
+			}
+		}
+		if !busy {
+			break
+		}
+	}
+	t.Yield("settle")
+	evs = append(evs, lst.drain()...)
+	var want []cid.Cid
+	nothing := dup || stop == head
+	if !nothing {
+		want = expectChain(pub.Ads, headIdx, stop, depth)
+	}
+	hooks := sub.HooksSince(hook0)
+	blocks, heads, _ := w.BlockRequests(pub, req0)
+	if !eqStrs(hookNames(hooks), namesOf(w, want)) {
+		r.Violate("c01.hooks", "Announce(%s) latest=%s depth=%d seg=%d dup=%v: hook saw %v, reference says %v", w.CidName(head), w.CidName(stop), depth, cfg.segDepth, dup, hookNames(hooks), namesOf(w, want))
+	}
+	var wantReq []string
+	for _, c := range want {
+		if !sub.Store.Has(c) {
+			r.Violate("c01.store", "reported block %s is not in the local store", w.CidName(c))
+		}
+		if !before[c] {
+			wantReq = append(wantReq, w.CidName(c))
+		}
+	}
+	if heads != 0 {
+		r.Violate("c01.requests", "an announce-triggered sync queried the head %d times", heads)
+	}
+	if !eqStrs(blocks, wantReq) {
+		r.Violate("c01.requests", "Announce(%s): publisher was asked for %v, reference says %v", w.CidName(head), blocks, wantReq)
+	}
+	if nothing {
+		if len(evs) != 0 {
+			r.Violate("c01.event", "%d notifications for an announcement with nothing to sync (dup=%v, latest=%s)", len(evs), dup, w.CidName(stop))
+		}
+	} else {
+		if len(evs) != 1 {
+			r.Violate("c01.event", "%d notifications after an announce-triggered sync, want 1", len(evs))
+		} else if evs[0].Cid != head || evs[0].Count != len(want) || evs[0].PeerID != pub.Ident.ID || evs[0].Err != nil {
+			r.Violate("c01.event", "notification {cid=%s count=%d err=%v}, want {cid=%s count=%d}", w.CidName(evs[0].Cid), evs[0].Count, evs[0].Err, w.CidName(head), len(want))
+		}
+		cfg.lm.cur = head
+	}
+	if l := sub.Latest(pub); l != cfg.lm.cur {
+		r.Violate("c01.latest", "after Announce(%s): latest-sync is %s, want %s", w.CidName(head), w.CidName(l), w.CidName(cfg.lm.cur))
+	}
+	r.Probe("announce-triggered-sync")
+	if len(want) >= 2 {
+		r.Probe("nontrivial")
+	}
+	r.State(fmt.Sprintf("ann want=%d req=%d dup=%v stop=%v seg=%d", len(want), len(wantReq), dup, stop != cid.Undef, cfg.segDepth))
 }
 
 func c01EntriesCall(t *simkit.Task, w *World, pub *PubNode, sub *SubNode, cfg c01Cfg, one bool) {
